@@ -81,3 +81,38 @@ def op_out(req):
 
 
 OPS['out'] = op_out
+
+
+def op_scopes(req):
+    """C03/C04/C06 oracle inside this interpreter (3.8+), plus the symtable cross-check of the resolver."""
+    from vf.oracle import scopecheck, scopes
+    src = req['src'] if 'src' in req else bytes.fromhex(req['src_hex']).decode('utf-8')
+
+    def minify(s, o, pl, pg):
+        kw = kwargs(o)
+        if pl is not None:
+            kw['preserve_locals'] = list(pl)
+        if pg is not None:
+            kw['preserve_globals'] = list(pg)
+        return python_minifier.minify(s, **kw)
+
+    rep = {}
+    try:
+        agree, dis = scopes.symtable_check(src)
+        rep['validated_scopes'] = agree
+        if dis:
+            rep['resolver_disagrees_with_symtable'] = repr(dis[:3])
+    except SyntaxError:
+        return {'status': 'domain', 'why': 'syntax'}
+    r = scopecheck.analyse(src, req['opts'], minify, req.get('pl'), req.get('pg'))
+    out = dict((k, v) for k, v in r.items() if not k.startswith('_'))
+    if r['status'] == 'ok' and req.get('interface'):
+        bad = scopecheck.check_interface(r, req['opts'])
+        if bad:
+            out = {'status': 'violation', 'signature': list(bad[0]), 'detail': bad[1]}
+    out.update(rep)
+    out.pop('out', None)
+    return out
+
+
+OPS['scopes'] = op_scopes
